@@ -398,6 +398,12 @@ class Interp:
     def st_Pass(self, s, env):
         pass
 
+    def st_Continue(self, s, env):
+        raise ContinueSig()
+
+    def st_Break(self, s, env):
+        raise BreakSig()
+
     def st_Global(self, s, env):
         env.globals_.update(s.names)
 
@@ -1276,7 +1282,11 @@ class Interp:
             init = self.find_method(cls, "__init__")
             e = PExc(cls, args)
             if init is not None:
-                self.call_function(init, [e] + list(args), kwargs)
+                # exception constructors only build messages: inlined; their payload is not modelled
+                try:
+                    self.run_function(init, [e] + list(args), kwargs, None)
+                except (PyvcError, SymRaise):
+                    pass
             return e
         hook = self.registry.constructors.get(cls.full)
         if hook is not None:
